@@ -256,6 +256,10 @@ func (hp *HPACK) nextField(hf *HeaderField, blockStart bool, fieldsProcessed int
 		err error
 	)
 
+	// hf is reused from field to field: the never-indexed mark of the previous
+	// one must not carry over.
+	hf.sensible = false
+
 loop:
 	if len(b) == 0 {
 		return b, nil
